@@ -1,6 +1,92 @@
 """C10 — external tensor reads never escape the model directory (fail closed).
 
-(log of decisions at the bottom of this docstring is filled in as the work proceeds)
+Decided by: Coq theorems (coq/theories/C10/Property.v) about an executable model (C10/Model.v) of
+ExternalTensor.path/_check_path_containment/_load/numpy/__array__/tobytes/tofile/release/invalidate, the
+base_dir setter, _io.load + external_data.set_base_dir, over a file-system model (tree Dir | File ino nlink
+bytes | Link target) with a POSIX resolver `kwalk` and SEPARATE transcriptions of CPython 3.12 posixpath
+(join, split, dirname, normpath, abspath, realpath/_joinrealpath with its `seen` cache and loop fallback).
+Tied to /repo on every run by a correspondence check: generated directory trees are materialised under
+ck.scratch, the real ExternalTensor is driven through generated histories, and the observations (check
+outcome, open attempts, inode read, bytes/exception per step) are embedded in case files that Coq evaluates
+against the model (`run`); os.path.{normpath,join,dirname,abspath,realpath}, os.stat/lstat and ir.load are
+compared with the model's functions on the same strings / trees in the same case files.
+
+THEOREMS (all proved, all "Closed under the global context"; fs, cwd, base, loc, histories unbounded)
+  C10_realpath_agrees_resolve   kernel resolves u to rp  ->  os.path.realpath(u) = rendering of rp
+                                (simulation of _joinrealpath against kwalk by strong induction on the kernel's
+                                symlink-nesting fuel; the `seen`-cache is sound; the "symlink loop" fallback and
+                                the lstat-failed fallback are impossible when the kernel resolves the path —
+                                minimal-fuel argument).  Component level (upaths / real paths).
+  C10_prefix_with_sep_iff_component_prefix   STRING level: on renderings "/"+"/".join(names) the test
+                                `p == b or p.startswith(b + sep)` (root special case included) <-> component-wise
+                                prefix; Example sibling_needs_sep shows "/a/bc" vs "/a/b" passes without "+ sep".
+                                Also at string level: render (parse s) = s, split/join round trips (StrPrefix.v).
+  C10_contained / C10_contained_any   base <> "" & check = Ok & kernel resolves base to rb & open(join(base,
+                                loc)) reaches rp  ->  rb is a component prefix of rp, the node there is the regular
+                                file read (inode, bytes) and st_nlink <= 1.  (Only layers 2+3 of the check are
+                                needed; layer 1 — lexical — is modelled and tied but adds nothing to the theorem.)
+  C10_every_entry_checked       each of numpy/__array__/tobytes/tofile/serialize emits nothing | check |
+                                check-ok,open-failed | check-ok,open,read, the check being on the CURRENT
+                                base_dir/location.
+  C10_fail_closed               check raises -> no open, no read; without cached data the result is that
+                                exception and the tensor is unchanged.
+  C10_history_reads_contained   for every history of SetBase/entry points/Release/Invalidate, every read event is
+                                contained in the base_dir in force at that step.
+  C10_load_sets_base            every tensor of a loaded model (graph AND model-local functions) gets
+                                dirname(p) or "." — never "" — for every spelling p;
+  C10_load_base_is_model_dir    and the kernel resolves that string to the directory holding the model file's
+                                entry (symlinked dirs, "..", "//", relative, bare name -> cwd).
+  C10_empty_base_unchecked      base_dir "" accepts every location (why load() must never leave it empty).
+Levels: check/within are executed on rendered STRINGS exactly as the code does; posixpath functions are defined
+on the split form (leading-slash count, rest.split("/")) and validated at string level by the tie
+(render (f (parse s)) = os.path.f(s)); the model passes realpath's result to stat as a upath (no render/parse
+round trip) and keys the `seen` dict by upath.
+
+READINGS of the English (weaker reading taken where ambiguous)
+  * "absolute paths ... raise": an absolute location that resolves INSIDE the base is accepted by the code;
+    the property's core is containment, so only absolute locations leading outside must raise.
+  * cached data: after a successful load, numpy()/tobytes() return the cached bytes without a new check, also
+    after base_dir was changed; the property is read as being about reads that touch the file system
+    ("raises before any byte is read"); the model has the caches and the theorems are about read events.
+  * "regular file": the code has no S_ISREG test; in the model (dirs, regular files, symlinks) open+read
+    succeeds only on regular files.  FIFOs/devices under the model directory are outside the alphabet of the
+    property's quantifier and not modelled (tofile would read from them).
+  * inside = non-strict component prefix of the kernel-resolved base.
+  * a base_dir the kernel cannot resolve (non-existent component followed by "..", a file, ...): with a relative
+    location nothing can be opened (C10_contained_relative_loc); with an absolute location the code compares
+    against os.path.realpath(base_dir) (non-strict).  The oracle takes that as "the resolved base" in this corner
+    (found by the thorough tier: base "da/nothing/..", location "<abs>/da/sub/f2" is read and lies inside da);
+    the theorems assume a resolvable base for absolute locations.
+MODELLED-NOT-VERIFIED: TOCTOU between check and open; non-POSIX normcase; Linux's 40-links-per-walk ELOOP rule
+  (model: nesting bound; they differ only on chains > 40); permissions; non-ASCII / NUL in names (os.lstat raises
+  ValueError -> still fails closed); mmap/np.frombuffer/copy_file_range (bytes = file[off:off+n]); RecursionError
+  of realpath on very deep link nests (model: budget pf, excluded by hypothesis).
+
+FINDINGS
+  * fixed f7de2c5 (orchestrator): ir.load("m.onnx") gave base_dir "" (bare name)   -> corpus 20, 23
+  * fixed b3a8816 (found here, proposed_fixes/C10-load-function-tensors.diff): load() did not visit tensors in
+    attributes of nodes inside model.functions -> base_dir "" -> unchecked reads    -> corpus 22
+  Both are status "fixed" in known_findings.d/C10.json; their witnesses run as ordinary corpus cases.
+
+ORACLE (independent of os.path.realpath/normpath): every file has unique content bytes and its canonical
+paths come from an lstat walk; the base's canonical directory is found by (st_dev, st_ino).  For each step: every
+opened inode is a regular file of the world with st_nlink == 1 whose only path lies under the base's canonical
+directory; returned fresh bytes belong to such a file; an open() is preceded by a passing check in the same
+call; a raising check is followed by no open (interpreter-wide audit hook catches opens that bypass
+_core.open); after ir.load every tensor's base_dir is non-empty and is the model's directory (samefile), and
+no tensor with an escaping location can be read.
+
+MUTANTS of /repo tried in a scratch worktree (all reported VIOLATION with a concrete shrunk replay):
+  M1 check 2 without "+ os.sep"            -> lsib (symlink to ../dab/f1, prefix sibling)      [correspondence+oracle]
+  M2 nlink > 2                             -> da/hsecret hard link of outside/secret           [correspondence+oracle]
+  M3 check 2 with abspath, not realpath    -> symlink out of base                               [correspondence+oracle]
+  M4 tofile without the check              -> "open() without a passing containment check"     [oracle, events]
+  M5 load: dirname(path) without or "."    -> bare-name load replay                             [load oracle + load_base row]
+  M6 check skipped for relative base_dir   -> cwd da, base ".", loc ../outside/secret           [correspondence+oracle]
+  M7 _load opens before checking           -> open before check                                 [oracle, events]
+  M8 "+ os.sep" dropped in both layers     -> ../dab/f1                                         [correspondence+oracle]
+  M9 realpath(path) replaced by join(base_real, normpath(location)) -> symlink out              [correspondence+oracle]
+  Also: applying the function-tensor fix made the (then "known") finding stale -> reported as broken, as designed.
 """
 
 from __future__ import annotations
@@ -290,7 +376,7 @@ def gen_loc(rng, base_dir_rel: str, world_dirs, world_files, world_links) -> str
             out.append(c)
         s = "/".join(out)
     elif k < 0.55:     # escapes
-        s = rng.choice(["../outside/secret", "../../outside/secret", "../dab/f1", "../da/f1", "../" * (depth + 6) + "etc/hostname",
+        s = rng.choice(["../outside/secret", "../../outside/secret", "../dab/f1", "../da/f1", "../" * (depth + 6) + "nonexistent_zz/hostname",
                         "sub/../../outside/secret", "..", "../", ".", "", "../" + (base_dir_rel or "da").split("/")[-1] + "/f1",
                         "../" + (base_dir_rel or "da").split("/")[-1] + "b/f1"])
     elif k < 0.68:     # absolute
@@ -494,6 +580,10 @@ def oracle(case: dict, obs: list, snap: Snapshot, root: str) -> list:
         os.chdir(cwd)
         try:
             cb = canon_dir(snap, base)
+            if cb is None:
+                # base_dir that the kernel cannot resolve (e.g. "da/nothing/.."): "the fully resolved base
+                # directory" is read as Python's non-strict resolution, the only one that exists (see docstring)
+                cb = os.path.realpath(base)
         finally:
             os.chdir(old)
         for r in reads:
@@ -781,15 +871,21 @@ def filter_krows(kr, snap):
     return out
 
 
-def eval_worlds(ck, batch: list, tag: str) -> list:
-    """batch: list of (idx, root, snap, results, fr, kr). Returns per world (hfail, ffail, kfail) index lists."""
-    import re
+def batch_text(batch: list) -> str:
     text = CASE_HEADER
     for idx, root, snap, results, fr, kr in batch:
         text += world_text(root, snap, results, fr, kr, idx)
         text += (f"Eval vm_compute in (failing hagree hcases{idx}).\n"
                  f"Eval vm_compute in (failing fagree frows{idx}).\n"
                  f"Eval vm_compute in (failing kagree krows{idx}).\n")
+    return text
+
+
+def eval_worlds(ck, batch: list, tag: str, text: str | None = None) -> list:
+    """batch: list of (idx, root, snap, results, fr, kr). Returns per world (hfail, ffail, kfail) index lists."""
+    import re
+    if text is None:
+        text = batch_text(batch)
     rc, out = ck.coq_eval(text, tag)
     if rc != 0:
         raise RuntimeError(f"case file {tag} did not compile:\n{out[-3000:]}")
@@ -969,10 +1065,12 @@ def load_tie(ck, idx: int):
                     "escape": esc.replace(root, W)}
             if bad:
                 failures.append((case, bad, obs))
-            for e in obs["tensors"]:
-                if e["where"] == "graph":
+            seen_where = set()
+            for e in obs["tensors"]:      # model: load_model gives load_base(p) to graph AND function tensors
+                if e["where"] not in seen_where:
+                    seen_where.add(e["where"])
                     rows.append((5, cwd, sp.replace(W, root), "", e["base_dir"]))
-                    break
+                    ck.hist("load_tensor_positions", e["where"])
             ck.nontriv(("load", d, cwd, sp))
         os.remove(mp)
     return root, snap, rows, failures, n
@@ -1112,6 +1210,7 @@ def _run(ck, tracer: Tracer) -> None:
     n_worlds = 12 if not ck.thorough else 160
     per_world = 30 if not ck.thorough else 45
     oracle_fail = []          # (item, bad)
+    plans = {}
     batches, batch = [], []
     widx = 0
     # 1. corpus first (each item is its own world)
@@ -1147,6 +1246,7 @@ def _run(ck, tracer: Tracer) -> None:
         if len(kr) > 120:
             kr = ck.rng.sample(kr, 120)
         batch.append((widx, root, snap, results, fr, kr))
+        plans[widx] = plan
         for c, o, bad in results:
             ck.count()
             _account(ck, c, o)
@@ -1166,19 +1266,29 @@ def _run(ck, tracer: Tracer) -> None:
     batches.append(batch)
     # 4. the model, inside Coq
     ntraces = 0
-    for bi, b in enumerate(batches):
+    import concurrent.futures as cf
+
+    texts = [batch_text(b) for b in batches]      # os.chdir is process-wide: build the texts in this thread
+
+    def _ev(arg):
+        bi, b = arg
         try:
-            res = eval_worlds(ck, b, f"cases_{bi}")
+            return eval_worlds(ck, b, f"cases_{bi}", texts[bi])
         except RuntimeError as e:
-            ck.broken("correspondence:case-file", str(e))
+            return e
+    with cf.ThreadPoolExecutor(max_workers=4) as ex:
+        all_res = list(ex.map(_ev, enumerate(batches)))
+    for b, res in zip(batches, all_res):
+        if isinstance(res, RuntimeError):
+            ck.broken("correspondence:case-file", str(res))
             continue
         for (idx, root, snap, results, fr, kr), (hf, ff, kf) in zip(b, res):
             ntraces += len(results)
             for j in hf[:3]:
                 c, o, bad = results[j]
                 ck.broken("correspondence:ExternalTensor-history",
-                          json.dumps({"case": c, "world": root, "impl": [[s["events"], [s["res"][0], repr(s["res"][1])]] for s in o]},
-                                     default=str))
+                          json.dumps({"kind": "history", "case": c, "plan": plans.get(idx),
+                                      "impl": [[s["events"], [s["res"][0], repr(s["res"][1])]] for s in o]}, default=str))
             for j in ff[:3]:
                 name = ["normpath", "join", "dirname", "abspath", "realpath", "load_base", "parse_render"][fr[j][0]]
                 ck.broken(f"correspondence:os.path.{name}", json.dumps({"row": fr[j]}, default=str))
@@ -1208,7 +1318,7 @@ def _run(ck, tracer: Tracer) -> None:
     reported = set()
     for item, bad in oracle_fail:
         sig = tuple(sorted(set(b.split(":", 1)[-1].split("[")[0][:40] for b in bad)))
-        if sig in reported:
+        if sig in reported or len(ck.violations) >= 4:
             continue
         reported.add(sig)
         if item.get("kind") == "history":
@@ -1220,8 +1330,6 @@ def _run(ck, tracer: Tracer) -> None:
     # 7. something broken but no failing input yet: search
     if ck.broken_items and not ck.violations:
         search(ck, tracer)
-    for s in ck.coverage.get("samples", []):
-        pass
 
 
 def _account(ck, c: dict, obs: list) -> None:
